@@ -23,7 +23,9 @@ LEVEL_TEXT = (
     "where an ODE/residual description is required, lift orders out of range, ODE order != number of coefficients for exponential priors, "
     "residual-based error estimate on a constraint of another shape, fewer ensemble members than coefficients. Each corrupted argument set "
     "must raise at construction or first use (a 2-step fixed-grid solve / one loss evaluation / one estimator call); the uncorrupted twin "
-    "must work (otherwise the harness, not the library, is at fault). Unsuitable pairings must warn and name the remedy."
+    "must work (otherwise the harness, not the library, is at fault). Unsuitable pairings must warn and name the remedy. The (entry point, "
+    "corruption, factorisation) product is finite and is enumerated in full on every run (label pinned:sweep; the thorough tier also "
+    "enumerates the constructor variant and sub-variant); the random cases on top vary sizes and variants."
 )
 LEVEL_NOTE = "The acceptance model is transcribed from the library's own checks and messages (e.g. dense/blockdiag exactness leaves may be () or the leaf shape; isotropic std leaves must be scalars), so documented-acceptable values are never counted as corruptions."
 RULE = (
@@ -32,7 +34,8 @@ RULE = (
 )
 ASSUMPTIONS = ["x64; first use = 2-step fixed-grid solve, one loss evaluation or one estimator call"]
 REQUIRED_LABELS = ["entry:output_scale", "entry:is_exact", "entry:tcoeffs", "entry:tcoeffs_std", "entry:loss_std", "entry:plain_function", "entry:lift",
-                   "entry:exponential_order", "entry:error_shape", "entry:ensembles", "entry:warning", "entry:transition_scale", "valid_twin_ok"]
+                   "entry:exponential_order", "entry:error_shape", "entry:ensembles", "entry:warning", "entry:transition_scale", "valid_twin_ok",
+                   "ctor:wiener", "ctor:wiener_diffuse", "ctor:exponential", "ctor:wiener+diffuse_derivatives", "pinned:sweep"]
 
 ENTRIES = {
     "output_scale": ["extra_axis", "wrong_length", "scalar_for_vector", "vector_for_scalar", "length_one", "tree_structure"],
@@ -41,7 +44,7 @@ ENTRIES = {
     "tcoeffs": ["array_instead_of_list", "ragged_leaves", "not_iterable"],
     "tcoeffs_std": ["tree_structure_same_size", "wrong_length", "vector_for_scalar", "extra_axis"],
     "loss_std": ["fewer_times", "extra_axis", "wrong_dim", "scalar", "tree_structure", "terminal_wrong_shape"],
-    "plain_function": ["ts0", "ts1", "residual_gets_ode", "ts0_gets_residual", "jetexpand", "prior_exponential", "posterior_is_marginal"],
+    "plain_function": ["ts0", "ts1", "residual_gets_ode", "ts0_gets_residual", "jetexpand", "prior_exponential", "posterior_is_marginal", "matfree_residual"],
     "lift": ["negative", "too_large", "non_int"],
     "exponential_order": ["too_low", "too_high"],
     "error_shape": ["lifted_constraint"],
@@ -62,6 +65,26 @@ def _case(draw):
 
 def strategy(ctx):
     return _case()
+
+
+def pinned_cases(ctx):
+    """Catalogue sweep: the (entry point, corruption, factorisation) product is finite, so it is
+    enumerated in full on every run (quick: once per triple with seed-dependent n, d, which, variant;
+    thorough: every (which, variant) as well); the random cases on top vary the remaining fields."""
+    import itertools
+
+    triples = [(e, o, f) for e in sorted(ENTRIES) for o in ENTRIES[e] for f in gen.FACTS]
+    extra = [(0, 0)] if ctx.tier == "quick" else list(itertools.product(range(4), range(3)))
+    out = []
+    for i, ((e, o, f), (w, v)) in enumerate(itertools.product(triples, extra)):
+        if i % ctx.nshards != ctx.shard:
+            continue
+        h = common.derive_seed(ctx.seed, i, "c20-sweep")
+        if ctx.tier == "quick":
+            w, v = (h >> 8) % 4, (h >> 12) % 3
+        case = dict(entry=e, op=o, fact=f, n=2 + h % 3, d=2 + (h >> 4) % 2, which=w, variant=v)
+        out.append(("sweep", case))
+    return out
 
 
 # ------------------------------------------------------------------------------------
@@ -91,6 +114,33 @@ def _first_use(ssm, prior, vf, strategy_name="filter", lin="ts0", constraint=Non
     solver = pd.solver(strategy=strat, constraint=constraint)
     sol = ivpsolve.solve_fixed_grid(solver=solver)(prior, grid=jnp.asarray([0.0, 0.1, 0.2]))
     return sol
+
+
+def _ctor(ssm, fact, n, d, which, entry):
+    """One of the public prior constructors that accepts the field under test; returns (name, build)
+    with build(tcoeffs, **field) -> prior.  Everything except the field is valid."""
+    import jax.numpy as jnp
+
+    from probdiffeq import probdiffeq as pd
+
+    std = [jnp.asarray(0.1) for _ in range(n)] if fact == "isotropic" else [jnp.ones((d,)) * 0.1 for _ in range(n)]
+    lin = pd.ode_autonomous_order_arbitrary(lambda *a: -a[-1], num_tcoeffs_in_args=n, jacobian=pd.jacobian_materialize())
+    table = {
+        "wiener": lambda tc, **kw: ssm.prior_wiener_integrated(tc, **kw),
+        "wiener+diffuse_derivatives": lambda tc, **kw: ssm.prior_wiener_integrated(tc, diffuse_derivatives=1, **kw),
+        "wiener_diffuse": lambda tc, **kw: ssm.prior_wiener_integrated_diffuse(tc, std, **kw),
+        "exponential": lambda tc, **kw: ssm.prior_exponential(lin, tc, **kw),
+        "exponential_diffuse": lambda tc, **kw: ssm.prior_exponential_diffuse(lin, tc, std, **kw),
+    }
+    names = {
+        "output_scale": ["wiener", "wiener_diffuse", "exponential", "wiener+diffuse_derivatives"],
+        "is_exact": ["wiener", "wiener+diffuse_derivatives", "exponential", "wiener"],
+        "tcoeffs": ["wiener", "wiener_diffuse", "exponential", "exponential_diffuse"],
+    }[entry]
+    name = names[which % len(names)]
+    if name.startswith("exponential") and fact != "dense":  # exponential priors exist for the dense model only
+        name = names[(which + 1) % 2]
+    return name, table[name]
 
 
 def _scale_valid(fact, d):
@@ -150,8 +200,10 @@ def check_case(case):
             broadcastable = True
         else:
             bad = [good]
-        valid = lambda: _first_use(ssm, ssm.prior_wiener_integrated(tcoeffs, output_scale=good), vf)  # noqa: E731
-        corrupt = lambda: _first_use(ssm, ssm.prior_wiener_integrated(tcoeffs, output_scale=bad), vf)  # noqa: E731
+        cname, build = _ctor(ssm, fact, n, d, case["which"], entry)
+        res.label(f"ctor:{cname}")
+        valid = lambda: _first_use(ssm, build(tcoeffs, output_scale=good), vf)  # noqa: E731
+        corrupt = lambda: _first_use(ssm, build(tcoeffs, output_scale=bad), vf)  # noqa: E731
 
     elif entry == "transition_scale":
         prior = ssm.prior_wiener_integrated(tcoeffs)
@@ -188,8 +240,10 @@ def check_case(case):
             bad = [[g] for g in good]
         else:
             bad = good + [good[0]]
-        valid = lambda: _first_use(ssm, ssm.prior_wiener_integrated(tcoeffs, is_exact=good), vf)  # noqa: E731
-        corrupt = lambda: _first_use(ssm, ssm.prior_wiener_integrated(tcoeffs, is_exact=bad), vf)  # noqa: E731
+        cname, build = _ctor(ssm, fact, n, d, case["which"], entry)
+        res.label(f"ctor:{cname}")
+        valid = lambda: _first_use(ssm, build(tcoeffs, is_exact=good), vf)  # noqa: E731
+        corrupt = lambda: _first_use(ssm, build(tcoeffs, is_exact=bad), vf)  # noqa: E731
 
     elif entry == "tcoeffs":
         if op == "array_instead_of_list":
@@ -199,8 +253,10 @@ def check_case(case):
             bad = tcoeffs[:-1] + [jnp.concatenate([tcoeffs[-1], tcoeffs[-1][:1]])]
         else:
             bad = 1.0
-        valid = lambda: _first_use(ssm, ssm.prior_wiener_integrated(tcoeffs), vf)  # noqa: E731
-        corrupt = lambda: _first_use(ssm, ssm.prior_wiener_integrated(bad), vf)  # noqa: E731
+        cname, build = _ctor(ssm, fact, n, d, case["which"], entry)
+        res.label(f"ctor:{cname}")
+        valid = lambda: _first_use(ssm, build(tcoeffs), vf)  # noqa: E731
+        corrupt = lambda: _first_use(ssm, build(bad), vf)  # noqa: E731
 
     elif entry == "tcoeffs_std":
         if fact == "isotropic":
@@ -226,8 +282,15 @@ def check_case(case):
         else:
             bad = [g[..., None] for g in good] if fact != "isotropic" else [g[None] for g in good]
             broadcastable = True
-        valid = lambda: _first_use(ssm, ssm.prior_wiener_integrated_diffuse(tcoeffs, good), vf)  # noqa: E731
-        corrupt = lambda: _first_use(ssm, ssm.prior_wiener_integrated_diffuse(tcoeffs, bad), vf)  # noqa: E731
+        if fact == "dense" and case["which"] % 2 == 1:
+            lin = pd.ode_autonomous_order_arbitrary(lambda *a: -a[-1], num_tcoeffs_in_args=n, jacobian=pd.jacobian_materialize())
+            build = lambda sd: ssm.prior_exponential_diffuse(lin, tcoeffs, sd)  # noqa: E731
+            res.label("ctor:exponential_diffuse")
+        else:
+            build = lambda sd: ssm.prior_wiener_integrated_diffuse(tcoeffs, sd)  # noqa: E731
+            res.label("ctor:wiener_diffuse")
+        valid = lambda: _first_use(ssm, build(good), vf)  # noqa: E731
+        corrupt = lambda: _first_use(ssm, build(bad), vf)  # noqa: E731
 
     elif entry == "loss_std":
         prior = ssm.prior_wiener_integrated(tcoeffs)
@@ -277,6 +340,14 @@ def check_case(case):
         elif op == "ts0_gets_residual":
             valid = lambda: _first_use(ssm, prior, vf, lin="ts0")  # noqa: E731
             corrupt = lambda: _first_use(ssm, prior, vf, constraint=ssm.constraint_ode_ts0(residual))  # noqa: E731
+        elif op == "matfree_residual":
+            def run_mf(r):
+                mf = pd.state_space_model_matfree(key=jax.random.PRNGKey(1), num_ensembles=n + 3)
+                solver = pd.solver(strategy=pd.strategy_filter(), constraint=mf.constraint_residual(r))
+                return ivpsolve.solve_fixed_grid(solver=solver)(mf.prior_wiener_integrated(tcoeffs), grid=jnp.asarray([0.0, 0.1, 0.2]))
+
+            valid = lambda: run_mf(residual)  # noqa: E731
+            corrupt = lambda: run_mf(vf if case["variant"] else plain)  # noqa: E731
         elif op == "jetexpand":
             alg = [pd.jetexpand_ode_padded_scan(num=2), pd.jetexpand_ode_unroll(num=2), pd.jetexpand_ode_via_jvp(num=2)][case["variant"]]
             valid = lambda: alg(vf, (tcoeffs[0],), t=0.0)[0]  # noqa: E731
